@@ -82,6 +82,8 @@ def mk_row(i, keys):
 
 
 def table_rows(env, stream, run="run-1"):
+    if run not in env.client or stream not in env.client[run]:
+        return None
     node = env.client[run][stream].base
     if "internal" not in node:
         return None
@@ -104,9 +106,10 @@ def same_rows(a, b):
 
 
 def event_of(model, desc_uid, keys, tag=""):
-    return {"uid": f"ev{tag}", "descriptor": desc_uid, "seq_num": mi(model, f"seq_num{tag}", 1), "time": mr(model, f"t_event{tag}", 3.0),
-            "data": {k: mr(model, f"data_{k}{tag}", 11.0 + i) for i, k in enumerate(keys)},
-            "timestamps": {k: mr(model, f"ts_{k}{tag}", 21.0 + i) for i, k in enumerate(keys)}}
+    o = sum(ord(c) for c in tag) % 89        # values the model leaves open differ from event to event
+    return {"uid": f"ev{tag}", "descriptor": desc_uid, "seq_num": mi(model, f"seq_num{tag}", 1 + o), "time": mr(model, f"t_event{tag}", 3.0 + o),
+            "data": {k: mr(model, f"data_{k}{tag}", 11.0 + i + 100 * o) for i, k in enumerate(keys)},
+            "timestamps": {k: mr(model, f"ts_{k}{tag}", 21.0 + i + 100 * o) for i, k in enumerate(keys)}}
 
 
 def row_clause(row, doc):
@@ -219,7 +222,10 @@ def sc_event(env, model, info):
     w, table0, cache0, batch = internal_state(env, model, info, keys)
     cb = [mk_row(77, ("v",))]
     w._internal_data_cache["b"] = cb
-    doc = event_of(model, "desc-a", keys)
+    via = info.get("via", "desc-a")
+    if via == "desc-a2":
+        w.descriptor(desc("desc-a2", "a", keys))
+    doc = event_of(model, via, keys)
     before = copy.deepcopy(doc)
     w.event(doc)
     table1 = table_rows(env, "a")
@@ -304,7 +310,8 @@ def sc_get_sres_node(env, model, info):
     if case == "first":
         ok = children == ["img"] and cons.data_key == "img" and set(w._sres_nodes) == {"sres-1", "a_img"} and w._sres_nodes["a_img"] is node and w._consolidators["a_img"] is cons and reg_len(env) == 0
     else:
-        ok = node is node0 and cons is cons0 and children == ["img"] and all(w._sres_nodes[k] is node0 and w._consolidators[k] is cons0 for k in w._sres_nodes)
+        ok = (node is node0 and cons is cons0 and children == ["img"] and all(w._sres_nodes[k] is node0 and w._consolidators[k] is cons0 for k in w._sres_nodes)
+              and set(w._sres_nodes) == ({"sres-1", "a_img"} if case == "known" else {"sres-1", "sres-2", "a_img"}) and set(w._consolidators) == set(w._sres_nodes))
     return ok, f"children of stream 'a': {children}, keys {sorted(w._sres_nodes)}"
 
 
@@ -474,6 +481,9 @@ def step(model, info, art):
             holds, detail = SCENARIOS[sc](env, model, info)
         except Exception as e:      # the step itself failed where the clause says it succeeds
             import traceback
+            last = traceback.extract_tb(e.__traceback__)[-1]
+            if last.filename.endswith("replay/tiled_writer.py"):
+                raise                # a failure of the adapter's own code is an adapter error, never a confirmation
             return "confirmed", f"scenario {sc} {info}: the real code raised {type(e).__name__}: {e} :: {traceback.format_exc()[-600:]}"
     if holds is None:
         return "not-constructible", detail
